@@ -75,7 +75,12 @@ func buildBinaries(c *core.Ctx) (gobl, race string, err error) {
 		return "", "", fmt.Errorf("go build gobl: %v: %s", e, out)
 	}
 	race = filepath.Join(bin, "racework.race")
-	cmd = exec.Command("go", "build", "-race", "-tags", "verif", "-o", race, "./cmd/racework")
+	args := []string{"build", "-race", "-tags", "verif"}
+	if alt := filepath.Join(c.Root, "harness", "go.alt.mod"); c.Repo != "/repo" {
+		// a scratch copy of the repository (VERIF_REPO): ./check wrote a go.mod that links it
+		args = append(args, "-modfile="+alt)
+	}
+	cmd = exec.Command("go", append(args, "-o", race, "./cmd/racework")...)
 	cmd.Dir = filepath.Join(c.Root, "harness")
 	cmd.Env = append(env(), "CGO_ENABLED=1")
 	if out, e := cmd.CombinedOutput(); e != nil {
